@@ -11,11 +11,12 @@ import (
 // Ev: what happened to the auction list in this step (labels for known-finding keys and statistics; derived
 // from the recorded pre/post states only).
 type Ev struct {
-	Started string `json:"started"` // "gen:kind" of auctions that appeared
-	Closed  string `json:"closed"`  // "gen:kind" of auctions with a standing bid that disappeared
-	Stuck   string `json:"stuck"`   // live auctions with a standing bid whose end time has passed
-	CS2     bool   `json:"cs2"`     // a generation-2 surplus auction was closed in this step
-	CD2     bool   `json:"cd2"`     // a generation-2 debt auction was closed in this step
+	Started  string `json:"started"`  // "gen:kind" of auctions that appeared
+	Closed   string `json:"closed"`   // "gen:kind" of auctions with a standing bid that disappeared
+	Stuck    string `json:"stuck"`    // live auctions with a standing bid whose end time has passed
+	CS2      bool   `json:"cs2"`      // a generation-2 surplus auction was closed in this step
+	CD2      bool   `json:"cd2"`      // a generation-2 debt auction was closed in this step
+	ColShort bool   `json:"colShort"` // a stuck generation-2 surplus auction whose lot the collector's custody no longer covers
 }
 
 type NodeA struct {
@@ -28,7 +29,7 @@ func aucKey(a Auc) string { return fmt.Sprintf("%d/%d", a.Gen, a.ID) }
 
 func events(pre, post StA) Ev {
 	var st, cl, sk []string
-	cs2, cd2 := false, false
+	cs2, cd2, colShort := false, false, false
 	pm, qm := map[string]Auc{}, map[string]Auc{}
 	for _, a := range pre.Auc {
 		pm[aucKey(a)] = a
@@ -40,6 +41,9 @@ func events(pre, post StA) Ev {
 		}
 		if a.NB > 0 && (post.T > a.EndT || post.T > a.BidEndT) {
 			sk = append(sk, fmt.Sprintf("%d:%s", a.Gen, a.Kind))
+			if a.Gen == 2 && a.Kind == "surplus" && post.Bal["col"][a.LotD] < a.Lot {
+				colShort = true
+			}
 		}
 	}
 	for _, a := range pre.Auc {
@@ -53,7 +57,7 @@ func events(pre, post StA) Ev {
 			}
 		}
 	}
-	return Ev{Started: strings.Join(st, ","), Closed: strings.Join(cl, ","), Stuck: strings.Join(sk, ","), CS2: cs2, CD2: cd2}
+	return Ev{Started: strings.Join(st, ","), Closed: strings.Join(cl, ","), Stuck: strings.Join(sk, ","), CS2: cs2, CD2: cd2, ColShort: colShort}
 }
 
 type runnerA struct {
